@@ -70,6 +70,17 @@ CHECKS.update({
         note="Trusted base: hyper's http1/http2 server connections as reference; exact-equality oracles are applied only where that reference itself is invariant under the same read plan and under one-byte reads (hyper's handling of malformed input may depend on read boundaries) - otherwise only the classification is asserted; HTTP/2 answers compared by DATA payload/END_STREAM/RST/GOAWAY, HTTP/1 byte-exact minus Date."),
 })
 
+CHECKS.update({
+    "C18": dict(engine="iomodel", ref="§5 C18, §4 E8",
+        technique="model-based property testing: generated read/write/vectored-write/flush/shutdown programs over a scripted faulty inner stream and over connected stream pairs, compared with a reference FIFO",
+        text="TokioIo in both directions and round trip, Rewind with arbitrary prefix, client/server Stream and TlsBraid::NoTls are driven over an inner stream that returns short transfers, Pending, errors and EOF at generated points; every outward result must match what the inner returned in that call and the delivered/accepted byte streams must equal the reference FIFO. The same programs run over in-process duplex pairs (deterministic) and real TCP/Unix pairs wrapped in Braid + Stream.",
+        note="Trusted base: wrapper adapters are pass-through (no buffering); real-socket legs use 2 s real-time guards whose expiry is inconclusive, never a violation. TLS record layers are exercised end to end in C12/C01, not here."),
+    "C19": dict(engine="timeout+poolsim", ref="§5 C19, §4 E9/E1",
+        technique="property-based testing in virtual time: exhaustive grid plus random (duration, inner completion, first-poll delay) cases for the Timeout layer; stateful pool histories with virtual-time advances so deadlines fire at every stage of a pooled request",
+        text="Unit leg: result value, resolution instant (never later than the deadline), inner future dropped at resolution and never polled again. Pool leg: requests wrapped in the real Timeout inside poolsim histories; a request polled at or after its deadline must resolve, a timeout never fires early, no connection is handed to a request that already ended, and after the drain a probe to every origin is served.",
+        note="Trusted base: tokio paused clock; poolsim collaborators (see C02). When the first poll happens after both the deadline and the inner completion either answer is accepted."),
+})
+
 NOT_YET = {
     "C01": "check not built yet (engine E2 netsim in progress)",
     "C07": "check not built yet (engine E2 netsim in progress)",
